@@ -182,6 +182,7 @@ class FakeKernel:
         self.abort_after_fork_of = scn.get("abort_after_fork")  # ordinal of spawn after which to abort
         self.aborted = False
         self.spawn_count = 0
+        self.acts_since_spawn = 0
         self.report_section = None
         self.failed_list, self.skipped_list = [], []
         self.banners = []
@@ -189,6 +190,11 @@ class FakeKernel:
         self.trace_files = scn.get("trace_scope", "conductor")
         self.line_log = None
         self.in_del = 0
+        self.wakeup_fd = -1          # signal.set_wakeup_fd: written by the (emulated) C-level handler
+        self.late = False            # a signal whose C-level handler ran in the window between the last signal check of
+                                     # the main thread and its blocking read(): the Python-level handler cannot run
+                                     # until the read returns (or another signal interrupts it)
+        self.allow_late = self.sched.get("allow_late", False)
         if self.sched.get("unrelated"):
             # a child of this process that Conductor did not start (exits some time during the run)
             self.proc[60001] = "running"
@@ -200,6 +206,7 @@ class FakeKernel:
             self.events.append(kw)
 
     def on_line(self, stream, raw):
+        self.acts_since_spawn += 1
         line = ANSI.sub("", raw)
         s = line.strip()
         if stream == "stderr":
@@ -256,10 +263,16 @@ class FakeKernel:
         self.proc[pid] = "zombie"
         self.status[pid] = status
         self.pending = True
+        if self.wakeup_fd >= 0 and callable(self.handlers.get(signal.SIGCHLD)):
+            try:
+                os.write(self.wakeup_fd, bytes([int(signal.SIGCHLD)]))     # what CPython's C-level handler does
+            except (BlockingIOError, OSError):
+                pass
         self.ev(e="Exit", pid=pid, t=t, **desc)
 
     def deliver(self):
         self.pending = False
+        self.late = False
         h = self.handlers.get(signal.SIGCHLD)
         if callable(h):
             self.in_handler += 1
@@ -294,13 +307,16 @@ class FakeKernel:
 
     def progress(self):
         """Main thread would block: the environment must move. False if nothing can ever happen."""
-        if self.pending:
+        if self.pending and not self.late:
             self.deliver()
             return True
         run = self.running()
         if run:
             i = self.chooser.pick(len(run), "block_exit") if len(run) > 1 else 0
             self.do_exit(run[i])
+            if self.late:
+                # a further signal interrupts the blocked read (EINTR): now the Python-level handler runs for all of them
+                self.deliver()
             return True
         return False
 
@@ -334,6 +350,7 @@ class FakeKernel:
             listing = sorted(os.listdir(out))
         start_new_session = rest[9] if len(rest) > 9 else None
         self.spawn_count += 1
+        self.acts_since_spawn = 0
         self.ev(e="Spawn", t=ident, pid=pid, argv=argv, cwd=cwd_s, sess=bool(start_new_session),
                 env={k: env.get(k) for k in ("COND_NAME", "COND_OUT", "COND_DEPS", "COND_SLOT")},
                 out_listing=listing)
@@ -345,6 +362,8 @@ class FakeKernel:
     def waitpid(self, pid, flags):
         if pid in self.real:
             return self._waitpid(pid, flags)
+        if not self.in_handler:
+            self.acts_since_spawn += 1
         if pid == -1:
             self.point("waitpid_any")
             while True:
@@ -407,6 +426,10 @@ class FakeKernel:
         self.handlers[signum] = handler
         return old
 
+    def set_wakeup_fd(self, fd, *, warn_on_full_buffer=True):
+        old, self.wakeup_fd = self.wakeup_fd, fd
+        return old
+
     def getsignal(self, signum):
         return self.handlers.get(signum, signal.SIG_DFL)
 
@@ -426,14 +449,24 @@ class FakeKernel:
 
     def read(self, fd, n):
         if fd in self.pipes and threading.current_thread() is threading.main_thread() and not self.in_handler:
+            self.acts_since_spawn += 1
             # a pipe whose write end is still open in this very process: only a signal handler can feed it
             self.point("pre_read")
+            if self.allow_late and not self.pending and not select.select([fd], [], [], 0)[0]:
+                run = self.running()
+                if run and self.chooser.env_action(["none", "late"], "late_signal") == 1:
+                    # the child exits and the C-level handler runs AFTER the main thread's last signal check and BEFORE
+                    # its read() blocks: no EINTR, the Python-level handler stays pending
+                    self.do_exit(run[self.chooser.pick(len(run), "late_exit") if len(run) > 1 else 0])
+                    self.late = True
+                    self.ev(e="LateSignal")
             while not select.select([fd], [], [], 0)[0]:
                 if not self.progress():
                     self.ev(e="Hang")
                     raise HangDetected()
             data = self._read(fd, n)
-            self.point("post_read")
+            # back in the interpreter loop: pending Python-level handlers run before the next byte-code
+            self.point("post_read", force_deliver=True)
             return data
         return self._read(fd, n)
 
@@ -448,7 +481,9 @@ class FakeKernel:
             return
         self.aborted = True
         live = sorted(p for p, s in self.proc.items() if s in ("running", "zombie"))
-        self.ev(e="Abort", file=file, line=line, func=func, live=live, in_del=bool(self.in_del),
+        # acts: what Conductor's main flow has visibly done (printed a line, read the SIGCHLD pipe, called waitpid) since the
+        # most recent spawn - 0 means the signal arrived before the scheduler did anything with the new child
+        self.ev(e="Abort", file=file, line=line, func=func, live=live, in_del=bool(self.in_del), acts=self.acts_since_spawn,
                 live_tasks=[self.task_of[p] for p in live])
         h = self.handlers.get(getattr(signal, self.abort_sig))
         if callable(h):
@@ -494,6 +529,7 @@ class FakeKernel:
         os.pipe, os.close, os.read = self.pipe, self.close, self.read
         signal.signal = self.signal_
         signal.getsignal = self.getsignal
+        signal.set_wakeup_fd = self.set_wakeup_fd
 
 
 def run_cond(scn, root, chooser=None):
